@@ -73,7 +73,7 @@ func addPoint(_ *api.Context, point b6.Geometry, id b6.FeatureID, tags b6.Collec
 	if id.Type != b6.FeatureTypePoint {
 		return nil, fmt.Errorf("expected the id of a point, found %s", id)
 	}
-	if point.GeometryType() != b6.GeometryTypePoint {
+	if point == nil || point.GeometryType() != b6.GeometryTypePoint {
 		return nil, fmt.Errorf("expected a point")
 	}
 	p := &ingest.GenericFeature{
